@@ -4,7 +4,7 @@
 # fail), reverts the change and runs the demonstration again (must pass).
 set -u
 d=$(cd "$1" && pwd)
-export GOFLAGS=-mod=mod GOPROXY=off GOSUMDB=off
+export GOFLAGS=-mod=mod GOPROXY=off GOSUMDB=off GOTOOLCHAIN=local PATH=/root/go/pkg/mod/golang.org/toolchain@v0.0.1-go1.24.0.linux-amd64/bin:$PATH
 wt=$(mktemp -d /tmp/seedwt.XXXX); rmdir "$wt"
 git -C /repo worktree add --detach "$wt" HEAD >/dev/null 2>&1 || exit 9
 cd "$wt"
